@@ -333,6 +333,15 @@ theorem appsTransmit_mark (now : Int) (hp : Bool) : ∀ (k : Nat) (c c1 : Ctx) (
           · exact ih _ _ _ h ((upd_tx _ _).trans h2)
         · cases h
 
+theorem passNow_marks (c : Ctx) (now : Int) : Marks now c (passNow c now) := by
+  unfold passNow
+  cases htr : tr c (fun s => toPassToken s true .first) "transition_pass_token" with
+  | panic s => exact Kind.panic _
+  | ok c1 =>
+    simp only [Res.bind]
+    intro c' b h h0 hb
+    exact doPassToken_marks c1 now c' b h ((tr_noTx _ _ _ c1 htr).trans h0) hb
+
 theorem useTokenGo_marks (c : Ctx) (now : Int) (d : UseData) (hp : Bool) : Marks now c (useTokenGo c now d hp) := by
   intro c' b h h0 hb
   unfold useTokenGo at h
@@ -349,8 +358,7 @@ theorem useTokenGo_marks (c : Ctx) (now : Int) (d : UseData) (hp : Bool) : Marks
     | true => simp only at h; cases h; exact hm b hb
     | false =>
       simp only at h
-      rw [tr_noTx _ _ _ c' h, hno rfl] at hb
-      cases hb
+      exact passNow_marks c2 now c' b h (hno rfl) hb
 
 theorem doUseToken_marks (c : Ctx) (now : Int) : Marks now c (doUseToken c now) := by
   unfold doUseToken
@@ -363,7 +371,7 @@ theorem doUseToken_marks (c : Ctx) (now : Int) : Marks now c (doUseToken c now) 
       · exact useTokenGo_marks _ now d false
       · split
         · exact useTokenGo_marks _ now d true
-        · exact Kind.of_noTx (tr_noTx _ _ _)
+        · exact passNow_marks _ now
   · exact Kind.panic _
 
 theorem doAwaitDataResponse_marks (c : Ctx) (now : Int) : Marks now c (doAwaitDataResponse c now) := by
@@ -496,5 +504,63 @@ theorem pollInner_marks (c : Ctx) (now : Int) (phyTx : Bool) (c' : Ctx) (b : Byt
       · cases h
         rw [upd_tx, htx1, h0] at hb; cases hb
       · exact dispatch_marks _ now c' b h ((upd_tx _ _).trans (htx1.trans h0)) hb
+
+/-! ### `do_pass_token` makes no application callback -/
+
+theorem tr_calls (c : Ctx) (f : Station → Option Station) (site : String) (c' : Ctx) (h : tr c f site = .ok c') :
+    c'.calls = c.calls := by
+  obtain ⟨s', _, rfl⟩ := tr_cases c f site c' h; rfl
+
+theorem passTokenOn_calls (c : Ctx) (now : Int) (att : Attempt) (c' : Ctx) (h : passTokenOn c now att = .ok c') :
+    c'.calls = c.calls := by
+  unfold passTokenOn at h
+  simp only at h
+  cases ht : transmit c now (sendToken (UInt8.ofNat c.s.ring.ns) (UInt8.ofNat c.s.p.address)) with
+  | panic s => rw [ht] at h; cases h
+  | ok c1 =>
+    rw [ht] at h
+    simp only [Res.bind] at h
+    obtain ⟨_, rfl⟩ := transmit_cases _ _ _ _ ht
+    split at h
+    · rw [tr_calls _ _ _ c' h]; rfl
+    · rw [tr_calls _ _ _ c' h]; rfl
+
+theorem doPassToken_calls (c : Ctx) (now : Int) (c' : Ctx) (h : doPassToken c now = .ok c') : c'.calls = c.calls := by
+  unfold doPassToken at h
+  split at h
+  · rename_i doGap att hst
+    simp only at h
+    by_cases hw : (waitSyncPause c.s now).2 = true
+    · rw [if_pos hw] at h; cases h; rfl
+    · rw [if_neg hw] at h
+      cases doGap with
+      | false =>
+        simp only [Bool.false_eq_true, if_false] at h
+        rw [passTokenOn_calls _ now att c' h]
+      | true =>
+        simp only [if_true] at h
+        split at h
+        · cases h
+        · rename_i g hg
+          rcases htg : transmitGapPoll (upd { c with s := (waitSyncPause c.s now).1 } fun s => { s with gap := g }) now with ⟨r, o⟩
+          rw [htg] at h
+          cases r with
+          | panic s => simp only at h; cases h
+          | ok c2 =>
+            have hc2 : c2.calls = c.calls := by
+              unfold transmitGapPoll at htg
+              split at htg
+              · split at htg
+                · cases htg
+                · split at htg
+                  · injection htg with h1 h2
+                    obtain ⟨_, rfl⟩ := transmit_cases _ _ _ _ h1
+                    rfl
+                  · cases htg
+              · cases htg; rfl
+            cases o with
+            | none => simp only at h; rw [passTokenOn_calls _ now att c' h, hc2]
+            | some a => simp only at h; rw [tr_calls _ _ _ c' h, hc2]
+  · cases h
 
 end PV
